@@ -193,11 +193,13 @@ def _stmt_inert(st_, ref_names=(), inert_calls=()):
     if isinstance(st_, ast.Expr) and isinstance(st_.value, ast.Call):
         c = st_.value
         if isinstance(c.func, ast.Name) and c.func.id == 'print' and any(k.arg == 'file' and U(k.value) == 'sys.stderr' for k in c.keywords) \
-                and all(_pure(a.value if isinstance(a, ast.Starred) else a) for a in c.args) and all(_pure(k.value) for k in c.keywords):
+                and all(_obs_pure(a.value if isinstance(a, ast.Starred) else a) for a in c.args) and all(_obs_pure(k.value) for k in c.keywords):
             return True
-        nm = c.func.id if isinstance(c.func, ast.Name) else (c.func.attr if isinstance(c.func, ast.Attribute) and isinstance(c.func.value, ast.Name)
-                                                             and c.func.value.id in ('self', 'cls') else None)
-        if nm in inert_calls and all(_pure(a.value if isinstance(a, ast.Starred) else a) for a in c.args) and all(_pure(k.value) for k in c.keywords):
+        if isinstance(c.func, ast.Attribute) and c.func.attr in _LOG_METHODS and _is_ghost_logger(c.func.value) \
+                and all(_obs_pure(a.value if isinstance(a, ast.Starred) else a) for a in c.args) and all(_obs_pure(k.value) for k in c.keywords):
+            return True         # a logger the reference tree does not have, set up without sys.stdout: diagnostics on stderr
+        nm = c.func.id if isinstance(c.func, ast.Name) else (c.func.attr if isinstance(c.func, ast.Attribute) and _pure(c.func.value) else None)
+        if nm in inert_calls and all(_obs_pure(a.value if isinstance(a, ast.Starred) else a) for a in c.args) and all(_obs_pure(k.value) for k in c.keywords):
             return True
         return False
     if isinstance(st_, ast.Assert) and _pure_claim(st_.test) and (st_.msg is None or _pure_claim(st_.msg)):
@@ -218,10 +220,14 @@ def _stmt_inert(st_, ref_names=(), inert_calls=()):
 def inert_helpers(rel, module):
     """Names of functions the reference tree does not have whose whole body is inert (a stderr reporting helper)."""
     ref = refshapes()
+    from .core import refidents as _ri
+    known = _ri() or set()
     out = set()
     for lname, fn in module.funcs.items():
         if (rel + '::' + lname) in ref or '<locals>' in lname or not isinstance(fn, ast.FunctionDef) or fn.decorator_list:
             continue
+        if lname.rpartition('.')[2] in known:
+            continue            # the name also means something else in the reference tree: a call by that name is not identified
         body = list(fn.body)
         if body and all(_stmt_inert(b_) for b_ in body):
             out.add(lname.rpartition('.')[2])
@@ -1225,6 +1231,243 @@ def inline_named_constants(rel, module, refidents):
     if done:
         ast.fix_missing_locations(tree)
     return done
+
+
+_CLOCKS = {'time.time', 'time.perf_counter', 'time.monotonic', 'time.process_time', 'time.perf_counter_ns', 'time.monotonic_ns',
+           'time.time_ns', 'datetime.datetime.now', 'datetime.now'}
+_LOG_METHODS = {'debug', 'info', 'warning', 'warn', 'error', 'exception', 'critical', 'log'}
+_GHOST_LOGGERS = set()      # names bound to logging.getLogger(..) that the reference tree does not have (filled by drop_ghost_state)
+_GHOST_LOGGER_FACTORIES = set()     # new functions that configure and return such a logger
+
+
+def _is_ghost_logger(e):
+    if isinstance(e, ast.Name):
+        return e.id in _GHOST_LOGGERS
+    if isinstance(e, ast.Call) and isinstance(e.func, ast.Name) and e.func.id in _GHOST_LOGGER_FACTORIES and not e.args and not e.keywords:
+        return True
+    return False
+
+
+def _obs_pure(e):
+    """Pure for an *observation*: pure, or reads a clock (reading the clock has no effect; its value may only reach diagnostics)."""
+    for n in ast.walk(e):
+        if isinstance(n, ast.Call):
+            if U(n.func) in _CLOCKS and not n.args and not n.keywords:
+                continue
+            if isinstance(n.func, ast.Attribute) and n.func.attr in _PURE_METHODS:
+                continue
+            if not (isinstance(n.func, ast.Name) and n.func.id in _PURE_CALLS):
+                return False
+        elif isinstance(n, (ast.Lambda, ast.Await, ast.Yield, ast.YieldFrom, ast.NamedExpr, ast.ListComp, ast.SetComp, ast.DictComp,
+                            ast.GeneratorExp)):
+            return False
+    return True
+
+
+def _is_diag_output(st, inert_calls):
+    """print(.., file=sys.stderr) / <ghost logger>.info(..) / a call of an inert reporting helper, with observation-pure arguments."""
+    if not (isinstance(st, ast.Expr) and isinstance(st.value, ast.Call)):
+        return False
+    c = st.value
+    args_ok = all(_obs_pure(a.value if isinstance(a, ast.Starred) else a) for a in c.args) and all(_obs_pure(k.value) for k in c.keywords)
+    if not args_ok:
+        return False
+    if isinstance(c.func, ast.Name) and c.func.id == 'print':
+        return any(k.arg == 'file' and U(k.value) == 'sys.stderr' for k in c.keywords)
+    if isinstance(c.func, ast.Attribute) and c.func.attr in _LOG_METHODS and _is_ghost_logger(c.func.value):
+        return True
+    nm = c.func.id if isinstance(c.func, ast.Name) else (c.func.attr if isinstance(c.func, ast.Attribute) and _pure(c.func.value) else None)
+    return nm in inert_calls
+
+
+def drop_ghost_state(repo, refidents, refnames):
+    """Step S52 (repository-wide).  *Ghost state* is state that only diagnostics can see: a local of a reference function, or an
+    attribute `self.x`, that the reference tree does not have, whose every write is `ghost = <observation-pure value>` (pure, or a
+    clock reading) and whose every read sits (a) in an argument of a diagnostic output (stderr print, logger call, inert reporting
+    helper), (b) in the value of another ghost write, (c) in the test of an `if` that guards nothing but ghost writes and diagnostic
+    output, or (d) in a `__repr__` / `__str__` the reference tree does not have (assumption A12: the textual form of the project's
+    objects is not part of any output).  Counters, timers and "peak" trackers added for observability are of this kind.  All ghost
+    writes (and the ifs of kind c) are removed; what they fed - the diagnostics - is removed by S10.  Loggers: a module-level
+    name bound to logging.getLogger(..) that the reference tree does not have, in a module whose logging set-up never mentions
+    sys.stdout, is a ghost logger (its method calls are diagnostic output).  Returns the number of statements removed."""
+    if os.environ.get('SA_KEEP_INERT') == '1':
+        return 0
+    _GHOST_LOGGERS.clear()
+    _GHOST_LOGGER_FACTORIES.clear()
+    ref_fns = refshapes()
+    stdout_logging = any(isinstance(n, ast.Call) and U(n.func) == 'logging.basicConfig' and 'stdout' in U(n)
+                         for m in repo.modules.values() for n in ast.walk(m.tree))
+    for rel, m in repo.modules.items():
+        if stdout_logging:
+            break
+        mentions_stdout = any('sys.stdout' in U(st) or 'FileHandler' in U(st) for st in m.tree.body
+                              if not isinstance(st, (ast.FunctionDef, ast.AsyncFunctionDef, ast.ClassDef)) and 'logging' in U(st))
+        # a new function that gets, configures (never with sys.stdout / a file) and returns a logger
+        for lname, fn in m.funcs.items():
+            if (rel + '::' + lname) in ref_fns or '.' in lname or lname in refidents or not isinstance(fn, ast.FunctionDef):
+                continue
+            got = {st.targets[0].id for st in ast.walk(fn) if isinstance(st, ast.Assign) and len(st.targets) == 1
+                   and isinstance(st.targets[0], ast.Name) and isinstance(st.value, ast.Call) and U(st.value.func) == 'logging.getLogger'}
+            rets = [r for r in ast.walk(fn) if isinstance(r, ast.Return)]
+            if got and rets and all(isinstance(r.value, ast.Name) and r.value.id in got for r in rets) \
+                    and not any((isinstance(x, ast.Attribute) and x.attr in ('stdout', '__stdout__', 'FileHandler', 'RotatingFileHandler'))
+                                or (isinstance(x, ast.Name) and x.id in ('stdout', 'FileHandler')) for x in ast.walk(fn)):
+                _GHOST_LOGGER_FACTORIES.add(lname)
+    for rel, m in repo.modules.items():
+        if stdout_logging:
+            break
+        mentions_stdout = any('sys.stdout' in U(st) or 'FileHandler' in U(st) for st in m.tree.body
+                              if not isinstance(st, (ast.FunctionDef, ast.AsyncFunctionDef, ast.ClassDef)) and 'logging' in U(st))
+        if mentions_stdout:
+            continue
+        for st in ast.walk(m.tree):
+            if isinstance(st, ast.Assign) and len(st.targets) == 1 and isinstance(st.targets[0], ast.Name) \
+                    and isinstance(st.value, ast.Call) and (U(st.value.func) == 'logging.getLogger' or _is_ghost_logger(st.value)) \
+                    and st.targets[0].id not in refidents:
+                _GHOST_LOGGERS.add(st.targets[0].id)
+    inert_by_mod = {rel: inert_helpers(rel, m) for rel, m in repo.modules.items()}
+    all_inert = set().union(*inert_by_mod.values()) if inert_by_mod else set()
+    all_inert = {n for n in all_inert if n not in refidents}
+    # candidates
+    cand_attrs = set()
+    for rel, m in repo.modules.items():
+        for n in ast.walk(m.tree):
+            if isinstance(n, ast.Attribute) and isinstance(n.ctx, ast.Store) and isinstance(n.value, ast.Name) and n.value.id == 'self' \
+                    and n.attr not in refidents:
+                cand_attrs.add(n.attr)
+    fn_of = {}
+    cand_locals = {}        # (rel, lname) -> set(names)
+    for rel, m in repo.modules.items():
+        for lname, fn in m.funcs.items():
+            if not isinstance(fn, (ast.FunctionDef, ast.AsyncFunctionDef)):
+                continue
+            q = rel + '::' + lname
+            if q not in refnames:
+                continue
+            ref = set(refnames[q])
+            ps = {a.arg for a in fn.args.args + fn.args.kwonlyargs + fn.args.posonlyargs} | \
+                 ({fn.args.vararg.arg} if fn.args.vararg else set()) | ({fn.args.kwarg.arg} if fn.args.kwarg else set())
+            declared = {x for n in ast.walk(fn) if isinstance(n, (ast.Global, ast.Nonlocal)) for x in n.names}
+            names = set()
+            for n in ast.walk(fn):
+                if isinstance(n, ast.Name) and isinstance(n.ctx, ast.Store) and n.id not in ref and n.id not in ps and n.id not in declared:
+                    names.add(n.id)
+            if names:
+                cand_locals[(rel, lname)] = names
+    if not cand_attrs and not cand_locals:
+        return 0
+
+    def ghost_target(t, locs):
+        if isinstance(t, ast.Name):
+            return t.id in locs
+        if isinstance(t, ast.Attribute) and isinstance(t.value, ast.Name) and t.value.id == 'self':
+            return t.attr in cand_attrs
+        return False
+
+    def is_ghost_write(st, locs):
+        if isinstance(st, ast.Assign):
+            return all(ghost_target(t, locs) for t in st.targets) and _obs_pure(st.value)
+        if isinstance(st, ast.AugAssign):
+            return ghost_target(st.target, locs) and _obs_pure(st.value)
+        if isinstance(st, ast.AnnAssign):
+            return st.value is not None and ghost_target(st.target, locs) and _obs_pure(st.value)
+        return False
+
+    def is_ghost_stmt(st, locs):
+        if is_ghost_write(st, locs) or _is_diag_output(st, all_inert):
+            return True
+        if isinstance(st, ast.If) and _pure(st.test) and st.body and all(is_ghost_stmt(b, locs) for b in st.body) \
+                and all(is_ghost_stmt(b, locs) for b in st.orelse):
+            return True
+        return False
+
+    changed = True
+    rounds = 0
+    while changed and rounds < 10:
+        changed = False
+        rounds += 1
+        bad_attrs = set()
+        for rel, m in repo.modules.items():
+            for lname, fn in m.funcs.items():
+                if not isinstance(fn, (ast.FunctionDef, ast.AsyncFunctionDef)):
+                    continue
+                locs = cand_locals.get((rel, lname), set())
+                fresh_repr = lname.rpartition('.')[2] in ('__repr__', '__str__') and (rel + '::' + lname) not in refnames
+                bad_locs = set()
+
+                def visit_block(blk):
+                    for st in blk:
+                        if is_ghost_stmt(st, locs):
+                            # writes whose form is not a plain ghost write were excluded by is_ghost_stmt; reads inside are fine
+                            continue
+                        # a non-ghost statement: every candidate it reads or writes at its own level is disqualified
+                        subs = []
+                        for f_ in ('body', 'orelse', 'finalbody'):
+                            b_ = getattr(st, f_, None)
+                            if isinstance(b_, list) and b_ and isinstance(b_[0], ast.stmt):
+                                subs.append(b_)
+                        for h in getattr(st, 'handlers', []) or []:
+                            subs.append(h.body)
+                        own = [x for f_, x in ast.iter_fields(st) if f_ not in ('body', 'orelse', 'finalbody', 'handlers')]
+                        if isinstance(st, (ast.FunctionDef, ast.AsyncFunctionDef, ast.ClassDef)):
+                            own, subs = [st], []
+                        for o in own:
+                            for x in (o if isinstance(o, list) else [o]):
+                                if not isinstance(x, ast.AST):
+                                    continue
+                                for y in ast.walk(x):
+                                    if isinstance(y, ast.Name) and y.id in locs:
+                                        bad_locs.add(y.id)
+                                    if isinstance(y, ast.Attribute) and y.attr in cand_attrs and not fresh_repr:
+                                        bad_attrs.add(y.attr)
+                        for b_ in subs:
+                            visit_block(b_)
+                visit_block(fn.body)
+                if bad_locs & locs:
+                    cand_locals[(rel, lname)] = locs - bad_locs
+                    changed = True
+            # attribute reads outside functions (class bodies, module level)
+            for st in m.tree.body:
+                if not isinstance(st, (ast.FunctionDef, ast.AsyncFunctionDef, ast.ClassDef)):
+                    for y in ast.walk(st):
+                        if isinstance(y, ast.Attribute) and y.attr in cand_attrs:
+                            bad_attrs.add(y.attr)
+        if bad_attrs & cand_attrs:
+            cand_attrs -= bad_attrs
+            changed = True
+    removed = 0
+    for rel, m in repo.modules.items():
+        touched = False
+        for lname, fn in m.funcs.items():
+            if not isinstance(fn, (ast.FunctionDef, ast.AsyncFunctionDef)):
+                continue
+            locs = cand_locals.get((rel, lname), set())
+            if not locs and not cand_attrs:
+                continue
+
+            def strip(blk):
+                nonlocal removed, touched
+                out = []
+                for st in blk:
+                    if is_ghost_write(st, locs) or (isinstance(st, ast.If) and is_ghost_stmt(st, locs)
+                                                    and any(is_ghost_write(x, locs) for x in ast.walk(st) if isinstance(x, ast.stmt))):
+                        removed += 1
+                        touched = True
+                        continue
+                    for f_ in ('body', 'orelse', 'finalbody'):
+                        b_ = getattr(st, f_, None)
+                        if isinstance(b_, list) and b_ and isinstance(b_[0], ast.stmt) and not isinstance(st, (ast.FunctionDef, ast.AsyncFunctionDef, ast.ClassDef)):
+                            nb = strip(b_)
+                            setattr(st, f_, nb if nb or f_ != 'body' else [ast.copy_location(ast.Pass(), st)])
+                    for h in getattr(st, 'handlers', []) or []:
+                        h.body = strip(h.body) or [ast.copy_location(ast.Pass(), h)]
+                    out.append(st)
+                return out
+            nb = strip(fn.body)
+            fn.body = nb or [ast.copy_location(ast.Pass(), fn)]
+        if touched:
+            m.reindex()
+    return removed
 
 
 def strip_local_annotations(module):
@@ -2337,6 +2580,88 @@ def inline_fresh_helpers(rel, module):
         done[key[1]] = done.get(key[1], 0) + 1
         return out or [ast.copy_location(ast.Pass(), st)]
 
+    def expand_option_pair(blk, i, caller_fn, caller_cls):
+        """S13o  `x = helper(..)` directly followed by `if x is None: A` (A leaves the block), where the helper is statements, guards
+        `if C: return None` and a final `return E` with E never None (a fresh copy / container): the helper's statements replace both,
+        every `return None` becomes A, the final return becomes `x = E`.  Returns the replacing statements or None."""
+        if i + 1 >= len(blk):
+            return None
+        st, nxt = blk[i], blk[i + 1]
+        if not (isinstance(st, ast.Assign) and len(st.targets) == 1 and isinstance(st.targets[0], ast.Name) and isinstance(st.value, ast.Call)):
+            return None
+        x = st.targets[0].id
+        if not (isinstance(nxt, ast.If) and not nxt.orelse and nxt.body and isinstance(nxt.body[-1], (ast.Return, ast.Raise, ast.Continue, ast.Break))
+                and U(nxt.test) in ('%s is None' % x, 'not %s' % x, '%s == None' % x)):
+            return None
+        key = match(st.value, caller_cls, tail=True)
+        if key is None or match(st.value, caller_cls) is not None:
+            return None
+        fn, body, static = tail_helpers[key]
+        b = bind(st.value, fn, static, key[0])
+        if b is None or not body or not isinstance(body[-1], ast.Return) or body[-1].value is None:
+            return None
+        if any(isinstance(y, (ast.Continue, ast.Break)) for z in nxt.body for y in ast.walk(z)) and \
+                any(isinstance(y, (ast.For, ast.While)) for z in body for y in ast.walk(z)):
+            return None
+        # E is never None (and, for the `not x` spelling, never falsy... only `is None` / `== None` are accepted unless E is a copy of
+        # a non-empty structure - keep it simple: `not x` only when E is a dict display with entries)
+        e = body[-1].value
+        local_defs = {}
+        for z in body[:-1]:
+            if isinstance(z, ast.Assign) and len(z.targets) == 1 and isinstance(z.targets[0], ast.Name):
+                local_defs.setdefault(z.targets[0].id, []).append(z.value)
+        src = e
+        if isinstance(e, ast.Name) and len(local_defs.get(e.id, [])) == 1:
+            src = local_defs[e.id][0]
+        fresh_obj = isinstance(src, (ast.List, ast.Dict, ast.Tuple, ast.Set, ast.ListComp, ast.DictComp)) or \
+            (isinstance(src, ast.Call) and U(src.func) in ('copy.copy', 'copy.deepcopy', 'list', 'dict', 'tuple', 'set'))
+        if not fresh_obj or U(nxt.test) == 'not %s' % x:
+            return None
+        mid = body[:-1]
+        for z in mid:
+            if isinstance(z, ast.If) and not z.orelse and z.body and isinstance(z.body[-1], ast.Return) \
+                    and not any(isinstance(y, ast.Return) for w in z.body[:-1] for y in ast.walk(w)):
+                r = z.body[-1]
+                if not (r.value is None or (isinstance(r.value, ast.Constant) and r.value.value is None)):
+                    return None
+            elif any(isinstance(y, ast.Return) for y in ast.walk(z)):
+                return None
+        assigned_in_helper = {n.id for z in body for n in ast.walk(z) if isinstance(n, ast.Name) and isinstance(n.ctx, (ast.Store, ast.Del))}
+        caller_names = {n.id for n in ast.walk(caller_fn) if isinstance(n, ast.Name)} | {a.arg for a in caller_fn.args.args}
+        subst = {}
+        pre = []
+        for p_, a in b.items():
+            if _simple_arg(a) and p_ not in assigned_in_helper:
+                subst[p_] = a
+            else:
+                counter[0] += 1
+                nm = p_ if p_ not in caller_names else '%s_h%d' % (p_, counter[0])
+                subst[p_] = nm
+                pre.append(ast.Assign(targets=[ast.Name(id=nm, ctx=ast.Store())], value=_c.deepcopy(a)))
+        ret_local = e.id if isinstance(e, ast.Name) and e.id in assigned_in_helper else None
+        for v in sorted(assigned_in_helper):
+            if v in subst:
+                continue
+            if v == ret_local:
+                subst[v] = x
+            elif v in caller_names:
+                counter[0] += 1
+                subst[v] = '%s_h%d' % (v, counter[0])
+        sub = _Subst(subst)
+        out = list(pre)
+        for z in mid:
+            z2 = sub.visit(_c.deepcopy(z))
+            if isinstance(z2, ast.If) and z2.body and isinstance(z2.body[-1], ast.Return):
+                z2.body = z2.body[:-1] + _c.deepcopy(nxt.body)
+            out.append(z2)
+        new_e = sub.visit(_c.deepcopy(e))
+        if not (isinstance(new_e, ast.Name) and new_e.id == x):
+            out.append(ast.Assign(targets=[ast.Name(id=x, ctx=ast.Store())], value=new_e))
+        for z in out:
+            _relocate(z, st)
+        done[key[1]] = done.get(key[1], 0) + 1
+        return out
+
     def expand_expr_calls(node, caller_cls):
         """Single-expression helpers called inside larger expressions: substitute the expression."""
         class T(ast.NodeTransformer):
@@ -2365,6 +2690,10 @@ def inline_fresh_helpers(rel, module):
             st = blk[i]
             if isinstance(st, (ast.FunctionDef, ast.ClassDef)):
                 i += 1
+                continue
+            pair = expand_option_pair(blk, i, caller_fn, caller_cls)
+            if pair is not None:
+                blk[i:i + 2] = pair
                 continue
             rep = expand_stmt(st, caller_fn, caller_cls)
             if rep is None:
@@ -2712,6 +3041,23 @@ def expand_enumerate_counters(rel, module):
                         continue
                     inner_it = U(st.iter.args[0])
                     elem = st.target.elts[1]
+                    # S28c: enumerate(X, k) -> enumerate(X) with `i += k` as the first statement of the body, when that is how the
+                    # reference loop over enumerate(X) counts (i is bound by this loop only, so its value inside the body is the same)
+                    k28 = None
+                    if len(st.iter.args) == 2 and not st.iter.keywords:
+                        k28 = st.iter.args[1]
+                    elif len(st.iter.args) == 1 and len(st.iter.keywords) == 1 and st.iter.keywords[0].arg == 'start':
+                        k28 = st.iter.keywords[0].value
+                    ref_enum = ref_for.get('enumerate(%s)' % inner_it)
+                    if k28 is not None and isinstance(k28, ast.Constant) and isinstance(k28.value, int) and k28.value >= 1 and ref_enum \
+                            and nstores.get(st.target.elts[0].id, 0) == 1 \
+                            and any(('%s += %d' % (tg.strip('()').split(',')[0].strip(), k28.value)) in r.get('aug', ()) for tg in ref_enum):
+                        first = ast.AugAssign(target=ast.Name(id=st.target.elts[0].id, ctx=ast.Store()), op=ast.Add(), value=ast.Constant(value=k28.value))
+                        _relocate(first, st.body[0])
+                        st.body = [first] + st.body
+                        st.iter = ast.copy_location(ast.Call(func=st.iter.func, args=[st.iter.args[0]], keywords=[]), st.iter)
+                        done.setdefault(lname, []).append(st.target.elts[0].id)
+                        continue
                     sentinel = isinstance(st.iter.args[0], ast.Call) and isinstance(st.iter.args[0].func, ast.Name) \
                         and st.iter.args[0].func.id == 'iter' and len(st.iter.args[0].args) == 2
                     if not sentinel and (inner_it not in ref_for or U(elem) not in ref_for[inner_it]):
